@@ -481,6 +481,19 @@ func (c *fctx) stmt() []*S {
 	case SReturn:
 		return []*S{c.ret()}
 	case SFuncLit:
+		if r.Chance(1, 6) {
+			// a three-clause loop INSIDE A PLAIN CLOSURE whose variable is captured by closures
+			// that outlive the iteration: the compiler has no business in a plain closure, so
+			// the loop keeps Go's per-iteration variables (the scratch module says go 1.23)
+			id := c.g.id()
+			obs := fmt.Sprintf("vrt.E(%d, f%d())", c.g.nextTag(), id)
+			if c.gen && !c.inLit && r.Bool() {
+				obs = fmt.Sprintf("«Yield»(f%d())", id)
+			}
+			text := fmt.Sprintf("fs%[1]d := func() []func() int {\n\tvar fs []func() int\n\tfor i := 0; i < 3; i++ {\n\t\tfs = append(fs, func() int { return i*10 + %[2]d })\n\t}\n\treturn fs\n}()\nfor _, f%[1]d := range fs%[1]d {\n\t%[3]s\n}", id, r.Range(1, 5), obs)
+			c.g.mark("three_clause_loop_variable_captured_inside_a_plain_closure")
+			return []*S{{K: SRaw, ID: id, Src: text}}
+		}
 		return c.funcLit()
 	case SYieldFrom:
 		return c.yieldFrom()
